@@ -355,6 +355,24 @@ macro_rules! ark_checks {
                     4 => flag_rt!(SWFlags, SWFlags::YIsNegative, "SWFlags::YIsNegative"),
                     _ => flag_rt!(SWFlags, SWFlags::PointAtInfinity, "SWFlags::PointAtInfinity"),
                 }
+                // a spare bit of the last byte that the flag type does not own makes the string non-canonical
+                // (its integer is >= 2^bits): it must be rejected whatever flags accompany it
+                {
+                    let spare = $NB * 8 - $f.bits as usize;
+                    for (fname, owned, mask) in [("TEFlags", 1usize, TEFlags::XIsNegative.u8_bitmask()), ("SWFlags", 2usize, SWFlags::YIsNegative.u8_bitmask()), ("SWFlags(none)", 2usize, 0u8)] {
+                        for junk in 0..spare.saturating_sub(owned) {
+                            let mut buf = canon(&ai);
+                            let last = buf.len() - 1;
+                            buf[last] |= mask;
+                            buf[last] |= 1u8 << (8 - spare + junk);
+                            ctx.class(&format!("{tag}:flags:junk-spare-bit"));
+                            let accepted = if owned == 1 { <$T>::deserialize_with_flags::<_, TEFlags>(&buf[..]).is_ok() } else { <$T>::deserialize_with_flags::<_, SWFlags>(&buf[..]).is_ok() };
+                            if accepted {
+                                fail(ctx, tag, "deserialize_with_flags", format!("accepts {} ({fname}): a spare bit outside the flag type's bits is set, the value is not below 2^{}", hex::encode(&buf), $f.bits))?;
+                            }
+                        }
+                    }
+                }
                 // the invalid SWFlags bit pattern (both bits set) is an error, not a panic, not a value
                 if $NB * 8 - $f.bits as usize >= 2 {
                     let mut buf = canon(&ai);
